@@ -96,6 +96,6 @@ DateOK(r) ==
 RefInv ==
   CASE inp.k = "date" -> DateOK(inp.r)
     [] inp.k = "rt" -> Len(Canonical(inp.y, inp.mo, inp.d, inp.h, inp.mi, inp.sec)) = 29
-    [] inp.k = "v4" -> (V4Acc(inp.fs) => \A i \in 1..4 : inp.fs[i].v \in 0..255) /\ (V4Canon(inp.fs) /\ Len(inp.fs) = 4 => V4Acc(inp.fs))
+    [] inp.k = "v4" -> V4Acc(inp.fs) => (\A i \in 1..4 : inp.fs[i].v \in 0..255 /\ inp.fs[i].t # "") /\ Len(JoinT(inp.fs, ".")) >= 7
     [] inp.k = "v6" -> V6Valid(inp.ps) => Groups(inp.ps) + (IF Empties(inp.ps) = {} THEN 0 ELSE 1) <= 8
 =============================================================================
